@@ -55,6 +55,12 @@ def gen_scenario(rng, family):
                 if k == 'flip':
                     sz = sc['sizes'][i]
                     k = ('flip', rng.choice([0, sz - 1, sz // 2, rng.randrange(sz)]))
+                    start = sum(sc['sizes'][:i])
+                    inside = [p for p in range(-(-start // L), (start + sz) // L) if p * L >= start and (p + 1) * L <= start + sz]
+                    if family == 'verify' and len(inside) >= 2 and rng.random() < 0.5:
+                        # a replaced byte range: piece p of the content becomes byte-identical to another piece q of the same torrent
+                        p_, q_ = rng.sample(inside, 2)
+                        k = ('twin', p_ * L - start, q_ * L - start)
                 sc['damage'][i] = k
     sc['L'] = L
     total = -(-sum(sc['sizes']) // L)
